@@ -166,7 +166,8 @@ class History(object):
                     raise AssertionError(name)
                 if new_view is not None:
                     self.views.append(new_view)
-                    val = [len(self.views), len(new_view), self.rel(opt(lambda: new_view.address)),
+                    nlen = opt(lambda: len(new_view))          # -1: len() of the new view raised
+                    val = [len(self.views), nlen[0] if nlen else -1, self.rel(opt(lambda: new_view.address)),
                            opt(new_view.tell)]
                 out = ["ok", val]
             except AssertionError:
@@ -278,9 +279,13 @@ def small_scope(chk, rng):
 def peek(v):
     """position and length as the view itself reports them (None if it refuses); used only to shape inputs"""
     try:
-        return v.tell(), len(v)
+        n = len(v)
     except Exception:
-        return None, len(v)
+        n = 4
+    try:
+        return v.tell(), n
+    except Exception:
+        return None, n
 
 
 def random_history(rng, clean, nops):
